@@ -6,6 +6,7 @@ kind "quiet": meaning-preserving, must produce no alarm
 FRAME = "crates/bytecode/src/frame.rs"
 COMPILER = "crates/bytecode/src/compiler.rs"
 NUMBER = "crates/runtime/src/types/number.rs"
+VM = "crates/runtime/src/vm.rs"
 
 MUTANTS = [
     # ---- V-frame
@@ -35,4 +36,31 @@ MUTANTS = [
          old="            (I64(_), I64(0)) => F64(f64::NAN),\n", new="", expect="K-number::number_rem_int_total"),
     dict(name="number_sub_mixed_swapped", kind="break", prop="C01", units=["K-number"], file=NUMBER, count=2,
          old="(I64(a), F64(b)) => F64(a as f64 $f64_op b),", new="(I64(a), F64(b)) => F64(b $f64_op a as f64),", expect="K-number::number_sub_"),
+    # ---- V-vmproto
+    dict(name="vm_call_leaks_on_bind_error", kind="break", prop="C07", units=["V-vmproto"], file=VM,
+         old="            self.truncate_registers(result_register);\n            return Err(error);", new="            return Err(error);", expect="V-vmproto::KotoVm::call_and_run_function"),
+    dict(name="vm_wrapper_no_truncate", kind="break", prop="C07", units=["V-vmproto"], file=VM,
+         old="        let result = self.run_binary_op_inner(op, lhs, rhs);\n        // Ensure that the operation's registers are discarded if it exited early with an error\n        self.truncate_registers(result_register);", new="        let result = self.run_binary_op_inner(op, lhs, rhs);", expect="V-vmproto::KotoVm::run_binary_op::no_register_left_behind"),
+    dict(name="vm_forgets_pop_frame_on_error", kind="break", prop="C07", units=["V-vmproto"], file=VM, count=3,
+         old="            if result.is_err() {\n                self.pop_frame(KValue::Null)?;\n            }", new="", expect="V-vmproto::KotoVm::"),
+    dict(name="vm_run_forgets_pop_frame", kind="break", prop="C07", units=["V-vmproto"], file=VM,
+         old="        if result.is_err() {\n            self.pop_frame(KValue::Null)?;\n        }\n\n        // Reset the register stack", new="        // Reset the register stack", expect="V-vmproto::KotoVm::run::"),
+    dict(name="vm_timeout_catchable", kind="break", prop="C08", units=["V-vmproto"], file=VM,
+         old="                        ErrorKind::Timeout(timeout.execution_limit).into(),\n                        false,", new="                        ErrorKind::Timeout(timeout.execution_limit).into(),\n                        true,", expect="V-vmproto::KotoVm::execute_instructions"),
+    dict(name="vm_unwind_ignores_barrier", kind="break", prop="C04", units=["V-vmproto"], file=VM,
+         old="                    if frame.execution_barrier {\n                        break;\n                    }\n", new="", expect="V-vmproto::KotoVm::pop_call_stack_on_error"),
+    dict(name="vm_unwind_ignores_allow_catch", kind="break", prop="C08", units=["V-vmproto"], file=VM,
+         old="Some((error_register, catch_ip)) if allow_catch => {", new="Some((error_register, catch_ip)) => {", expect="V-vmproto::KotoVm::pop_call_stack_on_error"),
+    dict(name="vm_timeout_polled_every_other_instruction", kind="break", prop="C08", units=["V-vmproto"], file=VM,
+         old="                && timeout.check_for_timeout()", new="                && self.instruction_ip % 2 == 0\n                && timeout.check_for_timeout()", expect="V-vmproto::KotoVm::execute_instructions"),
+    dict(name="vm_state_left_active_on_error", kind="break", prop="C07", units=["V-vmproto"], file=VM,
+         old="                        self.execution_state = ExecutionState::Inactive;\n                        return Err(error);", new="                        return Err(error);", expect="V-vmproto::KotoVm::execute_instructions::state_not_active_on_exit"),
+    dict(name="vm_pop_frame_keeps_base", kind="break", prop="C07", units=["V-vmproto"], file=VM,
+         old="            self.register_base = 0;\n            self.min_frame_registers = 0;", new="            self.min_frame_registers = 0;", expect="V-vmproto::KotoVm::pop_frame"),
+    dict(name="vm_trace_skips_failing_instruction", kind="break", prop="C12", units=["V-vmproto"], file=VM,
+         old="        error.extend_trace(self.instruction_frame());\n\n        while let Some(frame) = self.call_stack.last() {", new="        while let Some(frame) = self.call_stack.last() {", expect="V-vmproto::KotoVm::pop_call_stack_on_error::"),
+    dict(name="vm_timeout_check_after_deadline_only_once", kind="break", prop="C08", units=["V-vmproto"], file=VM,
+         old="            if now >= self.deadline {\n                true", new="            if now >= self.deadline && self.interval_instructions > 0 {\n                true", expect="V-vmproto::ExecutionTimeout::check_for_timeout"),
+    dict(name="vm_quiet_rename_frame_base", kind="quiet", prop="C07", units=["V-vmproto"], file=VM,
+         old="        let frame_base = self.next_register();\n        self.registers.push(KValue::Null); // Instance register", new="        let base_of_frame = self.next_register();\n        let frame_base = base_of_frame;\n        self.registers.push(KValue::Null); // Instance register", expect=""),
 ]
